@@ -24,9 +24,21 @@ def m(prop, rel, old, new, expect, rules=(), note=""):
 
 
 # ---------------------------------------------------------------- C01
+m('C01', 'operators/do_action.py', '                        on_next(i.item)', '                        on_next(i)', 'fire', ['AG-3d'], 'hand mutant: event instead of item')
+m('C01', 'operators/do_action.py', '                    if on_completed is not None:\n                        on_completed(i.key)\n', '                    pass\n', 'fire', ['AG-3d'], 'hand mutant: never calls on_completed per key')
+m('C01', 'operators/do_action.py', '                        on_error(i.error)', '                        on_error(i)', 'fire', ['AG-3d'], 'hand mutant: event to on_error')
+m('C01', 'operators/do_action.py', '                elif type(i) is rs.OnErrorMux:\n                    if on_error is not None:', '                elif type(i) is rs.OnCompletedMux:\n                    if on_error is not None:', 'fire', ['AG-3d'], 'hand mutant: error callback on completion')
+m('C01', 'operators/do_action.py', '                        on_create(i.key)\n\n                observer.on_next(i)', '                        on_create(i.key)\n                        return\n\n                observer.on_next(i)', 'fire', ['AG-3d'], 'hand mutant: create swallowed')
+m('C01', 'operators/do_action.py', '                    if on_next is not None:\n                        on_next(i.item)', '                    observer.on_next(i)\n                    if on_next is not None:\n                        on_next(i.item)\n                    return', 'fire', ['AG-3d'], 'hand mutant: action after forwarding')
+m('C01', 'operators/do_action.py', '            return do_action_mux(on_next, on_error, on_completed, on_create)(source)', '            return do_action_mux(on_next, on_completed, on_error, on_create)(source)', 'fire', ['AG-3d'], 'hand mutant: swapped callbacks at dispatch')
+m('C01', 'operators/do_action.py', '                if on_completed is not None:\n                    on_completed(None)\n', '', 'silent')
+m('C01', 'operators/do_action.py', 'def do_action_mux(on_next=None, on_error=None, on_completed=None, on_create=None):', 'def do_action_mux(next_action=None, on_error=None, on_completed=None, on_create=None):\n    on_next = next_action', 'silent')
 m("C01", "math/stddev.py", "rs.ops.map(lambda i: math.sqrt(i) if i is not None else None)", "ops.map(lambda i: math.sqrt(i) if i is not None else None)", "fire", ["AG-1"], "RxPY map in a dual operator")
 m("C01", "operators/take.py", "return ops.take(count)(source)", "return ops.take(count + 1)(source)", "fire", ["AG-2"])
 m("C01", "operators/flat_map.py", "                        observer.on_next(i._replace(item=ii))\n", "                        observer.on_next(i._replace(item=ii))\n                        break\n", "fire", ["AG-3"])
+m("C01", "operators/filter.py", "                        if emit:\n", "                        if emit is True:\n", "fire", ["AG-3m"], "the filter defect repaired by c6baadb, re-introduced")
+m("C01", "operators/filter.py", "                        if emit:\n", "                        if bool(emit):\n", "silent")
+m("C01", "operators/map.py", "mapper(i.item)", "mapper(i)", "fire", ["AG-3m"], "the mapper receives the event instead of the item")
 m("C01", "operators/assert_.py", "                if last is not NO_VALUE:", "                if last is not None:", "fire", ["AG-3b"], "the repaired defect")
 m("C01", "operators/scan.py", "                    state = terminator(value)\n                    has_state = True\n                    if reduce is False:\n                        observer.on_next(state)", "                    state = terminator(value)\n                    has_state = True\n                    observer.on_next(state)", "fire", ["AG-3"])
 m("C01", "operators/map.py", "if type(i) is rs.OnNextMux:", "if isinstance(i, rs.OnNextMux):", "silent")
@@ -95,6 +107,14 @@ m("C08", "operators/tee_map.py", "                if i == n-1:\n                
 m("C08", "operators/tee_map.py", "append_count = (x.key[0]+1) * n - len(queue)", "append_count = x.key[0] * n - len(queue)", "fire", ["TM-5"])
 m("C08", "operators/tee_map.py", "append_count = (x.key[0]+1) * n - len(queue)", "append_count = n * (1 + x.key[0]) - len(has_next)", "silent")
 # ---------------------------------------------------------------- C09
+m('C09', 'operators/count.py', 'lambda acc, i: acc + 1, 0', 'lambda acc, i: acc + (1 if i else 0), 0', 'fire', ['SC-2'], 'hand mutant: count skips falsy')
+m('C09', 'operators/count.py', 'lambda acc, i: acc + 1, 0', 'lambda acc, i: acc + 1, 1', 'fire', ['SC-2'], 'hand mutant: count seed 1')
+m('C09', 'operators/count.py', 'lambda acc, i: acc + 1, 0', 'lambda acc, i: acc + 1 if i is not None else acc, 0', 'fire', ['SC-2'], 'hand mutant: count skips None')
+m('C09', 'operators/count.py', 'lambda acc, i: acc + 1, 0', 'lambda acc, i: 1 + acc, 0', 'silent')
+m('C09', 'data/to_list.py', '        acc.append(i)\n', '        if i is not None:\n            acc.append(i)\n', 'fire', ['SC-2'], 'hand mutant: to_list drops None')
+m('C09', 'data/to_list.py', '        acc.append(i)\n', '        acc.insert(0, i)\n', 'fire', ['SC-2'], 'hand mutant: to_list reversed')
+m('C09', 'data/to_array.py', '        acc.append(i)\n', '        acc.extend([i, i])\n', 'fire', ['SC-2'], 'hand mutant: to_array twice')
+m('C09', 'data/to_list.py', '        acc.append(i)\n        return acc', '        return acc + [i]', 'silent')
 m("C09", "operators/scan.py", "                            value = seed() if callable(seed) else copy.deepcopy(seed)\n                        acc = accumulator(value, i.item)", "                            value = seed() if callable(seed) else copy.copy(seed)\n                        acc = accumulator(value, i.item)", "fire", ["SD-1"])
 m("C09", "operators/scan.py", "                            value = seed() if callable(seed) else copy.deepcopy(seed)\n                        acc = accumulator(value, i.item)", "                            value = seed() if callable(seed) else seed\n                        acc = accumulator(value, i.item)", "fire", ["SD-1"])
 m("C09", "operators/scan.py", "                    if reduce is True:\n                        value = i.store.get_state(state, i.key)\n                        if value is rs.state.markers.STATE_NOTSET:\n                            value = seed() if callable(seed) else copy.deepcopy(seed)\n                        observer.on_next(rs.OnNextMux(i.key, value, i.store))", "                    if reduce is True:\n                        value = i.store.get_state(state, i.key)\n                        if value is not rs.state.markers.STATE_NOTSET:\n                            observer.on_next(rs.OnNextMux(i.key, value, i.store))", "fire", ["SC-1", "AG-3"], "no seed emitted for an empty key")
@@ -102,6 +122,18 @@ m("C09", "math/formal/variance.py", "            v = _moment(acc, mean, 2)\n    
 m("C09", "operators/scan.py", "                        acc = accumulator(value, i.item)\n                        i.store.set_state(state, i.key, acc)\n                        if reduce is False:\n                            observer.on_next(rs.OnNextMux(i.key, acc, i.store))", "                        acc = accumulator(value, i.item)\n                        if reduce is False:\n                            observer.on_next(rs.OnNextMux(i.key, acc, i.store))\n                        i.store.set_state(state, i.key, acc)", "silent", note="store/emit commute")
 m("C09", "operators/scan.py", "                if type(i) is rs.OnNextMux:\n                    try:\n                        value = i.store.get_state(state, i.key)", "                if isinstance(i, rs.OnNextMux):\n                    try:\n                        value = i.store.get_state(state, i.key)", "silent")
 # ---------------------------------------------------------------- C10
+m('C10', 'data/pad.py', '                        v = value if value is not None else i.item', '                        v = value if value else i.item', 'fire', ['OPT-1'], 'hand mutant: falsy explicit pad_start value')
+m('C10', 'data/pad.py', '                        v = value if value is not None else i.item', '                        v = value or i.item', 'fire', ['FW-2'], 'hand mutant: falsy explicit pad_start value (or)')
+m('C10', 'data/pad.py', '                        if value is not None:\n                            v = value', '                        if value:\n                            v = value', 'fire', ['OPT-1'], 'hand mutant: falsy explicit pad_end value')
+m('C10', 'data/pad.py', '                        if value is not None:\n                            v = value', '                        if value != None:\n                            v = value', 'silent')
+m('C10', 'data/pad.py', '                        for _ in range(size):\n                            observer.on_next(i._replace(item=v))', '                        for _ in range(size - 1):\n                            observer.on_next(i._replace(item=v))', 'fire', ['FW-2'], 'hand mutant: pad_start size-1')
+m('C10', 'data/pad.py', '                        for _ in range(size):\n                            observer.on_next(rs.OnNextMux(i.key, v, i.store))', '                        for _ in range(size + 1):\n                            observer.on_next(rs.OnNextMux(i.key, v, i.store))', 'fire', ['FW-2'], 'hand mutant: pad_end size+1')
+m('C10', 'data/batch.py', '        b = [] if acc[1] is True else acc[0]', '        b = acc[0]', 'fire', ['DP-6'], 'hand mutant: never starts a new list')
+m('C10', 'data/batch.py', '        b = [] if acc[1] is True else acc[0]', '        b = [] if acc[1] is False else acc[0]', 'fire', ['DP-6'], 'hand mutant: inverted restart')
+m('C10', 'data/batch.py', '        b = [] if acc[1] is True else acc[0]', '        b = [i] if acc[1] is True else acc[0]', 'fire', ['DP-6'], 'hand mutant: item twice in new batch')
+m('C10', 'data/batch.py', '        b = [] if acc[1] is True else acc[0]', '        b = acc[0] if not acc[1] else []', 'silent')
+m('C10', 'data/batch.py', '        b = [] if acc[1] is True else acc[0]\n        b.append(i)', '        b = ([] if acc[1] else acc[0]) + [i]', 'silent')
+m('C10', 'data/batch.py', '        b = [] if acc[1] is True else acc[0]\n        b.append(i)', '        if acc[1] is True:\n            b = [i]\n        else:\n            b = acc[0]\n            b.append(i)', 'silent')
 m("C10", "operators/take.py", "if value > 0:", "if value >= 0:", "fire", ["FW-2"])
 m("C10", "operators/take.py", "i.store.set_state(state, i.key, value - 1)", "i.store.set_state(state, i.key, value - 2)", "fire", ["FW-2"])
 m("C10", "data/lag.py", "if len(q) > size:", "if len(q) >= size:", "fire", ["FW-2"])
